@@ -155,7 +155,8 @@ class Message:
         d = json.loads(s)
 
         # Decode header segment
-        hdr_cls = get_header_cls()
+        # (a header with timecode fields is decoded into the timecode layout)
+        hdr_cls = get_header_cls("utc_seconds" in d["header"])
         hdr = hdr_cls.from_dict(d["header"])
 
         # Decode message data segment
